@@ -2,6 +2,8 @@
 
 Case = {"eie": exit_if_empty, "threads": [[cmd...], ...] (1-2 scheduling threads), "sched": see vlib/detrun.py}
 cmd  = ["now", dur, then] | ["rel", ms, "f"|"td", dur, then] | ["abs", ms, dur, then]      schedule / _relative / _absolute
+     | ["absz", ms, utc_offset_hours, dur, then]   schedule_absolute with the same instant EPOCH+ms expressed in another time zone
+     | ["per", ms]   schedule_periodic(ms, action) whose returned disposable is disposed at once (only acceptance is of interest)
      | ["cancel", ref] | ["dispose"] | ["sleep", ms] | ["await", n]
 `dur` = fake milliseconds the action spends (cooperative wait on the loop thread), `then` = commands the action issues from
 inside (one nesting level), `abs ms` is EPOCH+ms (may lie in the past), `cancel ref` disposes the disposable returned by the
@@ -11,7 +13,7 @@ cycle" reachable with a single preemption.
 """
 from __future__ import annotations
 
-from datetime import timedelta
+from datetime import timedelta, timezone
 
 from hypothesis import strategies as st
 
@@ -28,15 +30,16 @@ LEVEL = "exploration"
 TIMEOUT = {"quick": 600, "thorough": 3 * 3600}
 RULE = (
     "One EventLoopScheduler (exit_if_empty False/True, built with the patched thread factory so its loop thread is a "
-    "controlled logical thread) is driven by 1-2 scheduling threads that run generated command lists: schedule / "
+    "controlled logical thread) is driven by 1-3 scheduling threads that run generated command lists: schedule / "
     "schedule_relative (float seconds or timedelta; negative, zero and positive delays) / schedule_absolute (past, present, "
-    "future) with actions that take 0-6 fake ms and may themselves schedule / cancel / dispose, cancel(i) of a previously "
+    "future; UTC or the same instant in a zone with another UTC offset) / schedule_periodic (disposed again at once; only its "
+    "acceptance is judged, like any schedule call, by the dispose clause) with actions that take 0-6 fake ms and may themselves schedule / cancel / dispose, cancel(i) of a previously "
     "returned disposable (also across threads), dispose(), sleep(ms) on the fake clock, await(n) = wait until n actions have "
     "started. Engine DET (vlib/det.py) serialises all "
     "threads with yield points at every source line of reactivex and every primitive operation; time only moves when every "
-    "thread is blocked. enum: 26 hand-picked programs + all shape-(1,1)/(2,1)/(2,)/(3,) programs over the alphabet {schedule, "
+    "thread is blocked. enum: 29 hand-picked programs + all shape-(1,1)/(2,1)/(2,)/(3,)/(1,1,1) programs over the alphabet {schedule, "
     "schedule_relative(2ms), cancel(0), dispose}, each with exit_if_empty off and on, under EVERY schedule with <=1 preemption "
-    "(quick); thorough adds EVERY schedule with <=2 preemptions for the hand-picked and the shape-(1,)/(1,1)/(2,) programs; gen: drawn programs (<=2 threads x <=4 commands) with <=3 "
+    "(quick); thorough adds EVERY schedule with <=2 preemptions for the hand-picked and the shape-(1,)/(1,1)/(2,) programs; gen: drawn programs (<=2 threads x <=4 commands or 3 threads x <=2) with <=3 "
     "drawn preemption points. Oracle over the sequentially consistent event log (call/return of every command, start/end of "
     "every action with thread id and fake clock): (serial) no action starts while another is running, every action runs on a "
     "library-started thread, never on a caller, at most once, and without exit_if_empty all on the one loop thread and never "
@@ -61,13 +64,13 @@ RULE = (
 ASSUMPTIONS = [
     "C-level atomicity of CPython (GIL build): a source line is the unit of interleaving; locks/conditions/threads are cooperative replacements (vlib/det.py)",
     "the fake clock only advances when every controlled thread is blocked, so a schedule call sees one instant from entry to return",
-    "bounds: <=2 scheduling threads, <=4 commands each, one level of nested commands, <=1/<=2 preemptions exhaustive, <=3 drawn",
+    "bounds: <=3 scheduling threads, <=4 commands each (<=2 with three threads), one level of nested commands, <=1/<=2 preemptions exhaustive, <=3 drawn",
     "actions do not raise (an escaping action exception kills the loop thread; that is outside this property)",
     "'cancelled before it starts': a cancel landing between the item's own final is_cancelled() look and its invoke (nothing else examined/run in between) is excused (unlocked check-then-invoke, documented as best effort); every other cancel that returned before the start must prevent it",
     "ties (equal due times of timed actions, immediate vs timed at one instant, calls that overlap each other or a dispose) are not ordered by the oracle",
 ]
 
-_SCHED_OPS = ("now", "rel", "abs")
+_SCHED_OPS = ("now", "rel", "abs", "absz")
 
 
 class _ExaminedItem(ScheduledItem):
@@ -87,6 +90,8 @@ def _specs(case):
     out = {}
 
     def walk(cid, cmd):
+        if cmd[0] == "per":
+            out[cid] = cmd
         if cmd[0] in _SCHED_OPS:
             out[cid] = cmd
             for j, c in enumerate(cmd[-1]):
@@ -135,13 +140,34 @@ def _build(case):
                     d = s.schedule(action)
                 elif op == "rel":
                     d = s.schedule_relative(cmd[1] / 1000.0 if cmd[2] == "f" else timedelta(milliseconds=cmd[1]), action)
-                else:
+                elif op == "abs":
                     d = s.schedule_absolute(det.EPOCH + timedelta(milliseconds=cmd[1]), action)
+                else:
+                    zone = timezone(timedelta(hours=cmd[2]))
+                    d = s.schedule_absolute((det.EPOCH + timedelta(milliseconds=cmd[1])).astimezone(zone), action)
             except DisposedException:
                 log(("ret", cid, "disposed", us()))
                 return
             reg.append((cid, d))
             log(("ret", cid, "ok", us()))
+        elif op == "per":
+
+            def paction(state):
+                log(("start", cid, us()))
+                log(("end", cid, us()))
+                return state
+
+            paction.cid = cid
+            log(("call", cid, us()))
+            try:
+                d = s.schedule_periodic(cmd[1] / 1000.0, paction)
+            except DisposedException:
+                log(("ret", cid, "disposed", us()))
+                return
+            log(("ret", cid, "ok", us()))
+            log(("ccall", cid, cid))
+            d.dispose()
+            log(("cret", cid, cid))
         elif op == "cancel":
             if reg:
                 target, d = reg[cmd[1] % len(reg)]
@@ -243,6 +269,11 @@ def _judge(case, ctx, res):
             continue
         cmd = specs[cid]
         t_ret = r[3]
+        if cmd[0] == "per":
+            cl.add("periodic-accepted")
+            continue
+        if cmd[0] == "absz":
+            cl.add("abs-nonutc")
         if cmd[0] == "now" or (cmd[0] == "rel" and cmd[1] <= 0):
             imm.append(cid)
             continue
@@ -289,8 +320,10 @@ def _judge(case, ctx, res):
             continue
         if first_dret is not None and k > first_dret:
             cl.add("schedule-after-dispose")
+            if specs[cid][0] == "per":
+                cl.add("periodic-after-dispose")
             if r[4] != "disposed":
-                return ("schedule-after-dispose", f"{cid}: schedule call begun after dispose() returned did not raise DisposedException" + (" and its action ran" if cid in start else "")), True, cl
+                return ("schedule-after-dispose", f"{cid}: {'schedule_periodic' if specs[cid][0] == 'per' else 'schedule'} call begun after dispose() returned did not raise DisposedException" + (" and its action ran" if cid in start else "")), True, cl
             if cid in start:
                 return ("ran-after-dispose", f"{cid} ran"), True, cl
         if r[4] == "disposed" and (first_dcall is None or first_dcall > r[0]):
@@ -370,6 +403,9 @@ _HAND = [
     [[_now(2, [["cancel", 2]]), _now(), _now()]],  # one batch a,b,c: a's action cancels sibling c
     [[_now(3), _now(), _now()], [["await", 1], ["cancel", 1]]],  # T1 cancels b while a is running
     [[_rel(1, 2), _rel(1), _rel(1, 0, "f", [["cancel", 0]])], [["await", 1], ["cancel", 2]]],
+    [[_now(), ["dispose"], ["per", 2]], [["per", 1]]],
+    [[["per", 2], _now(0, [["dispose"], ["per", 1]])]],
+    [[["absz", 3, -5, 0, []], ["absz", 1, 4, 0, []], _abs(2)], [["sleep", 1], ["absz", 0, -7, 0, []], _now()]],
     [[_now()], [["await", 1], _now()]],
     [[_now(), ["await", 1], _now(), ["await", 2], _rel(1)]],
     [[_now(), _now()], [["await", 2], _now(), ["cancel", 2]]],
@@ -394,7 +430,7 @@ def _enum(tier):
     if tier == "quick":
         K = 1
         progs = list(_HAND)
-        for shape in ((1, 1), (2,), (3,), (2, 1)):
+        for shape in ((1, 1), (2,), (3,), (2, 1), (1, 1, 1)):
             progs += list(_programs(_ALPHA, shape))
     else:
         K = 2
@@ -420,6 +456,7 @@ def _sched_cmd(then):
         st.tuples(st.just("rel"), _rel_ms, st.sampled_from(["f", "td"]), _dur, then),
         st.tuples(st.just("rel"), _rel_ms, st.sampled_from(["f", "td"]), _dur, then),
         st.tuples(st.just("abs"), _abs_ms, _dur, then),
+        st.tuples(st.just("absz"), _abs_ms, st.sampled_from([-7, -5, 1, 4]), _dur, then),
     ).map(list)
 
 
@@ -431,14 +468,19 @@ _other = st.one_of(
     st.tuples(st.just("sleep"), st.sampled_from([1, 2, 3, 5, 9])),
     st.tuples(st.just("await"), st.integers(1, 3)),
     st.tuples(st.just("await"), st.integers(1, 3)),
+    st.tuples(st.just("per"), st.sampled_from([1, 3])),
 ).map(list)
-_nested = st.lists(st.one_of(_sched_cmd(st.just([])), _sched_cmd(st.just([])), st.tuples(st.just("cancel"), st.integers(0, 5)).map(list), st.just(["dispose"])), max_size=2)
+_nested = st.lists(st.one_of(_sched_cmd(st.just([])), _sched_cmd(st.just([])), st.tuples(st.just("cancel"), st.integers(0, 5)).map(list), st.just(["dispose"]), st.just(["per", 2])), max_size=2)
 _then = st.one_of(st.just([]), st.just([]), st.just([]), _nested)
 _cmd = st.one_of(_sched_cmd(_then), _sched_cmd(_then), _other)
 _gen = st.fixed_dictionaries(
     {
         "eie": st.booleans(),
-        "threads": st.lists(st.lists(_cmd, min_size=1, max_size=4), min_size=1, max_size=2),
+        "threads": st.one_of(
+            st.lists(st.lists(_cmd, min_size=1, max_size=4), min_size=1, max_size=2),
+            st.lists(st.lists(_cmd, min_size=1, max_size=4), min_size=1, max_size=2),
+            st.lists(st.lists(_cmd, min_size=1, max_size=2), min_size=3, max_size=3),
+        ),
         "sched": detrun.sched_strategy(3),
     }
 )
